@@ -79,24 +79,56 @@ def clean_tree(
         delete_items(deletables, dry_run=dry_run)
 
 
+def _control_name_cache():
+    cache = {}
+
+    def is_control_name(name):
+        try:
+            return cache[name]
+        except KeyError:
+            cache[name] = controldir.is_control_filename(name)
+            return cache[name]
+
+    return is_control_name
+
+
+def _holds_control_name(directory, is_control_name):
+    try:
+        names = os.listdir(directory)
+    except OSError:
+        return False
+    return any(is_control_name(name) for name in names)
+
+
 def _filter_out_nested_controldirs(deletables):
+    """Drop everything that is, is inside, or contains a control directory.
+
+    A candidate is kept out of the result if one of its path components is a
+    control file name (``.bzr``, ``.git``, ...), if one of its parent
+    directories below the tree root holds such a name (it is a file of a
+    nested tree), or if it is a directory below which such a name exists at
+    any depth (it is or contains a nested tree).
+    """
+    is_control_name = _control_name_cache()
     result = []
     for path, subp in deletables:
-        # bzr won't recurse into unknowns/ignored directories by default
-        # so we don't pay a penalty for checking subdirs of path for nested
-        # control dir.
-        # That said we won't detect the branch in the subdir of non-branch
-        # directory and therefore delete it. (worth to FIXME?)
+        parts = subp.split("/")
+        if any(is_control_name(part) for part in parts):
+            continue
+        base = path[: len(path) - len(subp)]
+        parents = ["/".join(parts[:n]) for n in range(1, len(parts))]
+        if any(_holds_control_name(base + parent, is_control_name) for parent in parents):
+            continue
         if isdir(path):
-            try:
-                controldir.ControlDir.open(path)
-            except errors.NotBranchError:
-                result.append((path, subp))
-            else:
+            nested = False
+            for _dirpath, dirnames, filenames in os.walk(path):
+                if any(is_control_name(name) for name in dirnames + filenames):
+                    nested = True
+                    break
+            if nested:
                 # TODO may be we need to notify user about skipped directories?
-                pass
-        else:
-            result.append((path, subp))
+                continue
+        result.append((path, subp))
     return result
 
 
